@@ -102,6 +102,8 @@ pub fn profile(prop: &str, tier: &str) -> Profile {
                 (K::StreamNext, 3),
                 (K::AsyncRecv, 3),
                 (K::Yield, 2),
+                (K::TryRecvRt, 2),
+                (K::TrySendRt, 1),
             ]),
             caps: vec![Cap::N(0), Cap::N(1), Cap::N(2)],
             pays: TAGGED.to_vec(),
